@@ -101,12 +101,42 @@ func gen(t *rapid.T) Case {
 		}
 		c.Links = append(c.Links, l)
 	}
+	grid := rapid.IntRange(0, 5).Draw(t, "gridnet") == 0
+	if grid {
+		// a street grid: every node linked to its lattice neighbours (where both exist), each link bent a little by its
+		// mid points, so that between two nodes there are many chains of nearly but not exactly the same cost
+		at := map[[2]float64]int{}
+		for i, p := range c.Nodes {
+			at[[2]float64{float64(p[0]), float64(p[1])}] = i
+		}
+		for i, p := range c.Nodes {
+			for _, d := range [][2]float64{{2, 0}, {0, 2}} {
+				if j, ok := at[[2]float64{float64(p[0]) + sx*d[0], float64(p[1]) + sy*d[1]}]; ok {
+					addLink(i, j)
+				}
+			}
+		}
+		for i := range c.Links { // gentle bends only: the alternatives stay close in cost
+			for j := range c.Links[i].Mid {
+				a, b := c.Nodes[c.Links[i].A], c.Nodes[c.Links[i].B]
+				f := float64(j+1) / float64(len(c.Links[i].Mid)+1)
+				c.Links[i].Mid[j] = vkit.MkP(float64(a[0])+f*(float64(b[0])-float64(a[0]))+rapid.Float64Range(-0.4, 0.4).Draw(t, "gmx"),
+					float64(a[1])+f*(float64(b[1])-float64(a[1]))+rapid.Float64Range(-0.4, 0.4).Draw(t, "gmy"))
+			}
+		}
+	}
 	// a spanning chain over a prefix (connected part), then random extra links; the rest may stay disconnected
 	conn := rapid.IntRange(1, n).Draw(t, "connected")
+	if grid {
+		conn = 1
+	}
 	for i := 1; i < conn; i++ {
 		addLink(rapid.IntRange(0, i-1).Draw(t, "parent"), i)
 	}
 	extra := rapid.IntRange(0, 2*n).Draw(t, "extra")
+	if grid {
+		extra = rapid.IntRange(0, 3).Draw(t, "gridextra")
+	}
 	for i := 0; i < extra; i++ {
 		addLink(rapid.IntRange(0, n-1).Draw(t, "ea"), rapid.IntRange(0, n-1).Draw(t, "eb"))
 	}
@@ -140,11 +170,11 @@ func gen(t *rapid.T) Case {
 			c.Early = append(c.Early, EarlyQ{After: rapid.IntRange(1, len(c.Links)-1).Draw(t, "after"), From: q("efrom"), To: q("eto")})
 		}
 	}
-	if !jitter && !c.Bisector && rapid.IntRange(0, 4).Draw(t, "faraway") == 2 {
+	if !jitter && !c.Bisector && (rapid.IntRange(0, 4).Draw(t, "faraway") == 2 || grid && rapid.Bool().Draw(t, "gridfar")) {
 		// the same network far from the origin: coordinates of 1e5 to 1e8 with links of length 2 to 30 (map coordinates in
 		// metres are like that). Only with bit-identical link ends: the library's relative tolerance for "the same point"
 		// is an absolute 0.1 out there.
-		c.Offset = rapid.SampledFrom([]float64{1e5, 1e6, 1e7, 3e7, 1e8}).Draw(t, "offset")
+		c.Offset = rapid.SampledFrom([]float64{1e5, 1e6, 1e7, 3e7, 1e8, 1e8}).Draw(t, "offset")
 		mv := func(p vkit.P2) vkit.P2 { return vkit.MkP(float64(p[0])+sx*c.Offset, float64(p[1])+sy*c.Offset) }
 		for i := range c.Nodes {
 			c.Nodes[i] = mv(c.Nodes[i])
